@@ -10,6 +10,7 @@ import Tmcg.Model.Codec
 import Tmcg.Model.StackEq
 import Tmcg.Model.GroupCheck
 import Tmcg.Model.Aio
+import Tmcg.Model.CoinFlip
 /-
   Line-protocol driver (DESIGN.md §2.2): reads the implementation's trace on stdin,
   `<op> <inputs…> => <outputs…>`, recomputes the outputs with the model and prints
@@ -553,6 +554,24 @@ def hStr62 : Handler
   | [v] => do let v ← pInt v; some (hexOfString (Codec.str62 v))
   | _ => none
 
+/-! #### two-party coin flip (C17) -/
+
+def showAction : CoinFlip.Action → String
+  | .send v => s!"s:{v}"
+  | .recv v => s!"r:{v}"
+  | .recvFail => "rf"
+
+/-- coin.flip2 p q g h c hc [peer: v | x] => [actions] result|fail -/
+def hCoinFlip2 : Handler
+  | [p, q, g, h, c, hc, peer] => do
+    let p ← pInt p; let q ← pInt q; let g ← pInt g; let h ← pInt h; let c ← pInt c; let hc ← pInt hc
+    let peer ← pList peer
+    let peer := peer.map fun t => pInt t
+    some (match CoinFlip.flipTwoParty ⟨p, q, g, h⟩ c hc peer with
+      | .ok o => s!"{showList (o.actions.map showAction)} {match o.result with | some a => toString a | none => if o.threw then "throw:runtime_error" else "fail"}"
+      | .error e => toString e)
+  | _ => none
+
 /-! #### point-to-point channels (C13) -/
 
 def hexOfBytes (b : List Nat) : String :=
@@ -695,6 +714,7 @@ def hRoundtrip : Handler
   | _ => some "1"
 
 def handlers : List (String × Handler) := [
+  ("coin.flip2", hCoinFlip2),
   ("aio.send", hAioSend), ("aio.recv", hAioRecv),
   ("grp.check", hGrpCheck), ("grp.elem", hGrpElem),
   ("io.card.import", hCardImport), ("io.secret.import", hSecretImport),
